@@ -16,6 +16,35 @@ META = {
 
 def run(chk, facts, tier):
     chk.rule('frame-checks', 'handle_l2cap_input delivers only behind in_size >= l2cap_layer_header_size and in_size == size + l2cap_layer_header_size, with size/channel read from input and input+2', floor=1)
+    chk.rule('cid-not-narrowed', 'every variable, field and parameter the received channel id passes through (local channel_id read with read_16bit(input + 2), the handler constructors\' parameters, the '
+             'channel_id fields compared with Channel::channel_id and written back into replies) holds at least 16 bits', floor=4)
+    import re as _re
+
+    def width(t):
+        t = (t or '').replace('const ', '').replace('std::', '').strip()
+        m = _re.match(r'u?int(\d+)_t', t)
+        if m:
+            return int(m.group(1))
+        return {'size_t': 64, 'unsigned int': 32, 'int': 32, 'unsigned short': 16, 'short': 16, 'unsigned char': 8, 'char': 8, 'bool': 1, 'unsigned long': 64, 'long': 64}.get(t)
+    for c in facts.classes:
+        if c['kind'] == 'pattern' and c['q'] in ('bluetoe::details::l2cap::l2cap_input_handler', 'bluetoe::details::l2cap::l2cap_output_handler'):
+            for f in c['fields']:
+                if f['n'] == 'channel_id':
+                    w = width(f['t'])
+                    chk.obligation('cid-not-narrowed', c['q'], 'field channel_id : %s' % f['t'], w is not None and w >= 16,
+                                   'the channel id is kept in %s bits: frames whose CID only agrees in the low octet (e.g. 0x0104) are delivered to the ATT channel and answered instead of being dropped' % w, key=c['q'].split('::')[-1] + '.channel_id')
+    for fn in facts.functions:
+        if fn.kind != 'pattern' or not fn.q.startswith('bluetoe::details::l2cap::'):
+            continue
+        for ini in (fn.hdr.get('inits') or []):
+            if ini['n'] == 'channel_id' and ini['init'].get('k') == 'DeclRefExpr':
+                p = next((p for p in fn.params if p['n'] == ini['init'].get('n')), None)
+                if p is not None:
+                    w = width(p['t'])
+                    chk.instance('cid-not-narrowed', fn, 'constructor parameter %s : %s' % (p['n'], p['t']), w is not None and w >= 16, 'the channel id is passed through %s bits' % w, key=fn.q.split('::')[-1] + ' ctor')
+        for d in fn.body.find(lambda n: n.k == 'VarDecl' and n.n == 'channel_id'):
+            w = width(d.t)
+            chk.instance('cid-not-narrowed', fn, 'local channel_id : %s in %s' % (d.t, fn.name), w is not None and w >= 16 and d.c and strip_casts(d.c[0]).is_call('read_16bit'), 'the channel id is read into %s bits' % w, node=d, key='local in ' + fn.name)
     chk.rule('channel-dispatch', 'l2cap_input_handler::each calls Channel::l2cap_input only when channel_id == Channel::channel_id and passes the payload window', floor=1)
     chk.rule('reply-framing', 'the reply header carries handler.out_size and the received channel_id, is committed with out_size + header and only when handled && out_size; handler output window starts after the header', floor=1)
     chk.rule('response-needs-matching-identifier', 'signaling_channel::l2cap_input completes the pending request only for code 0x13 while transmitted and input[1] == identifier_ (with in_size covering it)', floor=1)
